@@ -323,9 +323,12 @@ def _counter_uuid4():
     return uuid4
 
 
-def fresh(n_sessions: int = 2, addons: Optional[List[Any]] = None, neighbour: bool = True) -> World:
+def fresh(n_sessions: int = 2, addons: Optional[List[Any]] = None, neighbour: bool = True,
+          neighbour_handle: Any = "mixed") -> World:
     """New world: SessionManager, n sessions (main region SIMS[0] from login data, neighbour SIMS[1] via
-    register_region), one association/protocol per session, addons registered via AddonManager.init([], sm, addons)."""
+    register_region), one association/protocol per session, addons registered via AddonManager.init([], sm, addons).
+    ``neighbour_handle``: True = every neighbour is registered with its region handle, False = without one (handle is
+    Optional: the proxy learns it later from AgentMovementComplete), "mixed" = session 0 with, session 1 without."""
     global _LAST
     if _LAST is not None:
         _LAST.close()
@@ -347,8 +350,9 @@ def fresh(n_sessions: int = 2, addons: Optional[List[Any]] = None, neighbour: bo
             "region_x": 1000 + i, "region_y": 1000, "seed_capability": f"https://sim0.test.localhost:12043/cap/{i}/seed",
         })
         if neighbour:
+            with_handle = (i == 0) if neighbour_handle == "mixed" else bool(neighbour_handle)
             s.register_region(circuit_addr=SIMS[1], seed_url=f"https://sim1.test.localhost:12043/cap/{i}/seed",
-                              handle=((1001 + i) << 32) | 1000)
+                              handle=(((1001 + i) << 32) | 1000) if with_handle else None)
         w.sessions.append(s)
         p = InterceptingLLUDPProxyProtocol(TCP_PEERS[i], w.sm)
         sock = CapSock(w, i)
